@@ -22,7 +22,12 @@ type abInput struct {
 	Choices []int    `json:"choices,omitempty"`
 	Sticky  int      `json:"sticky"`
 	Seed    int64    `json:"seed"`
+	// the destructor callback takes time: it is a scheduling point of its own (harness label 98) between
+	// its start and its return; another destructor must not start meanwhile (oracle-only flavour)
+	DestrPark bool `json:"destr_park,omitempty"`
 }
+
+const abPtInDestructor = 98
 
 func abGen(r *rand.Rand, live bool) *abInput {
 	in := &abInput{Sticky: []int{0, 20, 60}[r.Intn(3)], Seed: r.Int63()}
@@ -86,8 +91,21 @@ func abRun(in *abInput, sink *CaseSink) {
 	sessID := map[*skiplist.BarrierSession]int{}
 	var oracleBad, oracleSig string
 	flushRefs := []int{} // ref id of flush number k+1 (by pointer-swap order)
+	inDestr := 0 // flush number whose destructor has started and not yet returned
+	var sch *Sched
 	cfg.BarrierDestructor = func(ref unsafe.Pointer) {
 		id := *(*int)(ref)
+		if in.DestrPark {
+			if inDestr != 0 && oracleBad == "" {
+				oracleBad = fmt.Sprintf("destructor of flush %d was started while the destructor of flush %d had not returned (destruction is neither ordered nor exclusive)", id, inDestr)
+				oracleSig = "c16-destructor-overlap"
+			}
+			inDestr = id
+			defer func() {
+				sch.Hook(abPtInDestructor)
+				inDestr = 0
+			}()
+		}
 		destrRefs = append(destrRefs, id)
 		k := len(destrRefs) // this must be the destructor of flush number k
 		if k > len(flushRefs) || flushRefs[k-1] != id {
@@ -111,9 +129,12 @@ func abRun(in *abInput, sink *CaseSink) {
 	sl := skiplist.NewWithConfig(cfg)
 	ab := sl.GetAccesBarrier()
 	sessID[ab.VerifSession()] = 0
-	sch := NewSched(nt, skiplist.VerifPtAcqLoaded, skiplist.VerifPtAcqBackoff, skiplist.VerifPtRelZero, skiplist.VerifPtRelLatched, skiplist.VerifPtRelQueued,
+	sch = NewSched(nt, skiplist.VerifPtAcqLoaded, skiplist.VerifPtAcqBackoff, skiplist.VerifPtRelZero, skiplist.VerifPtRelLatched, skiplist.VerifPtRelQueued,
 		skiplist.VerifPtCleanLoop, skiplist.VerifPtCleanEnd, skiplist.VerifPtCleanReset, skiplist.VerifPtFlushLoaded,
 		skiplist.VerifPtFlushSwapped, skiplist.VerifPtFlushAdded)
+	if in.DestrPark {
+		sch.mask[abPtInDestructor] = true
+	}
 	skiplist.VerifYieldHook = sch.Hook
 	defer func() { skiplist.VerifYieldHook = nil }()
 	results := make([][]string, nt)
@@ -313,6 +334,35 @@ func abRun(in *abInput, sink *CaseSink) {
 func init() {
 	commands["barrier"] = abCommand("C16", false)
 	commands["barrier-live"] = abCommand("C17", true)
+	commands["barrier-destr"] = func(a runArgs) error {
+		sink := NewSink(a.out, "C16", "", a.seed)
+		sink.meta.Rule = "oracle only: the programs and schedules of the barrier run, with a destructor callback that takes time (a scheduling point of its own between its start and its return): no destructor may start while another one has not returned, destructors run in flush order, never while an earlier accessor holds its token"
+		if a.replay != "" {
+			bs, err := os.ReadFile(a.replay)
+			if err != nil {
+				return err
+			}
+			var rp struct {
+				Case abInput `json:"case"`
+			}
+			if err := json.Unmarshal(bs, &rp); err != nil {
+				return err
+			}
+			rp.Case.DestrPark = true
+			abRun(&rp.Case, sink)
+			sink.cases = nil
+			return sink.Flush()
+		}
+		top := rand.New(rand.NewSource(a.seed))
+		for i := 0; i < a.n; i++ {
+			in := abGen(top, i%2 == 0)
+			in.DestrPark = true
+			sink.Begin(in)
+			abRun(in, sink)
+		}
+		sink.cases = nil
+		return sink.Flush()
+	}
 	commands["barrier-exh"] = abExhCommand("C16", false)
 	commands["barrier-live-exh"] = abExhCommand("C17", true)
 }
